@@ -221,8 +221,9 @@ func (server *SugarDB) setValues(ctx context.Context, entries map[string]interfa
 
 	for key, value := range entries {
 		expireAt := time.Time{}
-		if _, ok := server.store[database][key]; ok {
-			expireAt = server.store[database][key].ExpireAt
+		if old, ok := server.store[database][key]; ok && !isExpired(old, server.clock.Now()) {
+			// Keep the deadline of a live key; a deadline that has already passed is never inherited.
+			expireAt = old.ExpireAt
 		}
 		server.store[database][key] = internal.KeyData{
 			Value:    value,
